@@ -219,6 +219,10 @@ static Plan gen_merge(const std::string &prop, const std::string &tier, uint64_t
 	if (prop == "C04") {
 		uint64_t d = r.below(20);
 		p.seti("observe", d < 14 ? 0 : d < 18 ? 1 : 2);	// 0 iterate, 1 mtbl_source_write, 2 src/mtbl_merge
+		p.seti("tool_c", r.below(6));
+		p.seti("tool_l", r.chance(1, 2) ? -999 : (long long)r.below(25) - 3);
+		{ static const long long bs[] = { 0, 1024, 4096, 65536, -1024, -8192, 100 }; p.seti("tool_b", bs[r.below(7)]); }
+		p.seti("tool_t", r.chance(1, 2) ? -1 : (long long)r.below(5));
 		if (p.geti("mode") == 0 && r.chance(1, 4)) p.seti("mergefail", 1 + r.below(12));
 		else p.seti("mergefail", 0);
 	} else {
@@ -495,11 +499,21 @@ static RunResult exec_merge(const Plan &p)
 		// ---- src/mtbl_merge with the union DSO
 		std::string out = dir + "/tool.mtbl";
 		unlink(out.c_str());
-		std::vector<std::string> av{ tool_path("mtbl_merge"), "-c", "snappy" };
+		// the tool's own options: compression (-c name), level (-l), block size (-b or the environment, never both),
+		// compression threads (-t: the tool then runs a real pool; its output must not depend on that)
+		static const char *cname[] = { "none", "snappy", "zlib", "lz4", "lz4hc", "zstd" };
+		std::vector<std::string> av{ tool_path("mtbl_merge") };
+		std::vector<std::string> tenv{ "MTBL_MERGE_DSO=" + tool_path("merge_union.so"), "MTBL_MERGE_FUNC_PREFIX=union" };
+		long long tc = p.geti("tool_c", 1), tl = p.geti("tool_l", -999), tb = p.geti("tool_b", 0), tt = p.geti("tool_t", -1);
+		av.push_back("-c"); av.push_back(cname[(size_t)(tc % 6 + 6) % 6]);
+		if (tl != -999) { av.push_back("-l"); av.push_back(std::to_string(tl)); }
+		if (tb > 0) { av.push_back("-b"); av.push_back(std::to_string(tb)); }
+		else if (tb < 0) tenv.push_back("MTBL_MERGE_BLOCK_SIZE=" + std::to_string(-tb));
+		if (tt >= 0) { av.push_back("-t"); av.push_back(std::to_string(tt)); res.probes["mtbl_merge-with-threads"]++; }
 		for (auto &s : w.srcs) if (s.used) av.push_back(s.path);
 		av.push_back(out);
 		Bytes so, se;
-		int st = run_cmd(av, &so, &se, { "MTBL_MERGE_DSO=" + tool_path("merge_union.so"), "MTBL_MERGE_FUNC_PREFIX=union" });
+		int st = run_cmd(av, &so, &se, tenv);
 		res.probes["mtbl_merge-run"]++;
 		if (st != 0) res.fail("TOOL", "MERGE-TOOL-status", "mtbl_merge exited with " + std::to_string(st) + ": " + se.substr(0, 300));
 		else {
